@@ -1399,8 +1399,19 @@ VmTrap vm_core_execute(VmState *vm) {
                 vm_release(&vm->heap, arr);
                 return trap_error(vm, VM_ERR_TYPE_ERROR, "ARR_SLICE: not an array");
             }
-            uint32_t start = (uint32_t)(start_v.tag == TAG_INT ? start_v.as.i64 : 0);
-            uint32_t end = (uint32_t)(end_v.tag == TAG_INT ? end_v.as.i64 : arr.as.array->length);
+            /* The compiler hands over start and end = start + length (wrapping).  Clamp in 64 bits the way the native
+             * runtime and the evaluator do: negative start / length count as 0, start and end are cut at the length;
+             * the operands are never truncated to 32 bits. */
+            int64_t alen = (int64_t)arr.as.array->length;
+            int64_t s64 = (start_v.tag == TAG_INT ? start_v.as.i64 : 0);
+            int64_t e64 = (end_v.tag == TAG_INT ? end_v.as.i64 : alen);
+            int64_t n64 = (int64_t)((uint64_t)e64 - (uint64_t)s64);   /* the requested length */
+            if (s64 < 0) s64 = 0;
+            if (n64 < 0) n64 = 0;
+            if (s64 > alen) s64 = alen;
+            if (n64 > alen - s64) n64 = alen - s64;
+            uint32_t start = (uint32_t)s64;
+            uint32_t end = (uint32_t)(s64 + n64);
             VmArray *result = vm_array_slice(&vm->heap, arr.as.array, start, end);
             vm_release(&vm->heap, arr);
             stack_push(vm, val_array(result));
